@@ -89,6 +89,17 @@ def _gate(item):
         return G.Copy()
     if g == "xor":
         return G.ClassicalGate("xor", 2, 1, [1, 0, 0, 1, 0, 1, 1, 0])
+    if g == "lut":
+        # a big classical lookup table: a permutation of the 2**n bit strings that fixes 0...0 and 1...1
+        import random as _random
+        n = item["n"]
+        perm = list(range(1, 2 ** n - 1))
+        _random.Random(item["k"]).shuffle(perm)
+        perm = [0] + perm + [2 ** n - 1]
+        table = np.zeros((2 ** n, 2 ** n))
+        for i, j in enumerate(perm):
+            table[i, j] = 1
+        return G.ClassicalGate("lut", n, n, table.flatten())
     if g == "cnot":
         return G.ClassicalGate("cnot", 2, 2, [1, 0, 0, 0, 0, 1, 0, 0, 0, 0, 0, 1, 0, 0, 1, 0])
     raise HarnessError("unknown gate %r" % g)
@@ -120,6 +131,12 @@ def gen_circuit_spec(rng, cfg):
     """A random circuit spec; tracks wire kinds ('q'/'b') itself."""
     kinds, max_w = cfg["kinds"], cfg["max_wires"]
     wires, spec = [], []
+    if cfg.get("fringe") and max_w >= 5 and rng.random() < 0.25:
+        # five classical bits through a 1024-entry lookup table (siblings differ in the table only)
+        spec = [{"g": "Bits", "bits": [0] * 5, "at": 0}]
+        spec += [{"g": "not", "at": rng.randrange(5)} for _ in range(rng.randint(0, 3))]
+        spec.append({"g": "lut", "n": 5, "k": rng.randint(0, 3), "at": 0})
+        return spec
     if rng.random() < cfg.get("p_inputs", 0.0):
         wires = [rng.choice("qqb") if "bits0" in kinds else "q" for _ in range(rng.randint(1, min(2, max_w)))]
         spec.append({"g": "dom", "wires": list(wires)})
@@ -251,7 +268,7 @@ def gen_circuit_spec(rng, cfg):
 
 def variant_spec(rng, spec):
     spec = [dict(item) for item in spec]
-    idx = [k for k, it in enumerate(spec) if it["g"] in ("scalar", "Rx", "Rz", "CRz", "Ket")]
+    idx = [k for k, it in enumerate(spec) if it["g"] in ("scalar", "Rx", "Rz", "CRz", "Ket", "lut")]
     if not idx:
         return spec + [{"g": "scalar", "s": rng.choice(SCALARS), "at": 0}]
     k = rng.choice(idx)
@@ -266,6 +283,8 @@ def variant_spec(rng, spec):
             it["s"] = rng.choice(SCALARS)
     elif it["g"] == "Ket":
         it["bits"] = [1 - it["bits"][0]] + list(it["bits"][1:])
+    elif it["g"] == "lut":
+        it["k"] = it["k"] + 1
     else:
         it["phase"] = rng.choice([p for p in PHASES if p != it["phase"]])
     return spec
@@ -647,6 +666,7 @@ class Driver:
     def __init__(self, prop, cfg, streams):
         self.cfg, self.s = cfg, streams
         self.n = 0
+        self.sibs = {}
 
     def plan(self, batch):
         peer, fault = self.s["peer"], self.s["fault"]
@@ -675,7 +695,10 @@ class Driver:
             if names and gen.random() < 0.3:
                 # a sibling of an existing circuit that differs in one detail only: batches then
                 # contain near-duplicates (same shape, another scalar kind, phase or basis state)
-                spec = variant_spec(gen, world.slots[gen.choice(names)]["spec"])
+                parent = gen.choice(names)
+                spec = variant_spec(gen, world.slots[parent]["spec"])
+                self.sibs.setdefault(parent, []).append("c%d" % (self.n - 1))
+                self.sibs.setdefault("c%d" % (self.n - 1), []).append(parent)
             else:
                 spec = gen_circuit_spec(gen, cfg)
             return {"op": "new", "slot": "c%d" % (self.n - 1), "spec": spec}
@@ -690,7 +713,10 @@ class Driver:
         if r < 0.52:
             return {"op": "local_counts", "src": src}
         batch = sched.randint(1, min(cfg["batch_max"], len(names)))
-        srcs = [src] + [sched.choice(names) for _ in range(batch - 1)]
+        srcs = [src]
+        for _ in range(batch - 1):
+            sibs = [x for x in self.sibs.get(src, []) if x in world.slots]
+            srcs.append(sched.choice(sibs) if sibs and sched.random() < 0.6 else sched.choice(names))
         params = {"n_shots": sched.choice([1, 64, 1024, 4096]), "seed": sched.choice([None, 7])}
         if sched.random() < 0.2:
             params["normalize"] = False
@@ -740,7 +766,7 @@ def shrink_op(op):
         yield cand
 
 
-CLASSICAL = ("not", "rnd", "copy", "xor", "cnot", "swapb")
+CLASSICAL = ("not", "rnd", "copy", "xor", "cnot", "swapb", "lut")
 
 
 def circuit_features(spec):
